@@ -1184,7 +1184,24 @@ def event_graph(fn, role_of, ret_local=0, max_states=40000, branch_role=None, st
             g.add(src, label, ("ret", retv if retv is not None else "?"))
             continue
         if t.k == "switch":
-            if bb in br_roles:
+            static_role = bb in br_roles
+            if static_role and t.discr.place is not None and t.discr.place.is_local() and kb:
+                # `let run = pending || !opt; if run {..}`: a bool bound once (not `mut`) that on this path is a constant or a
+                # test of its own is read as that, not as a flag of its own
+                kv_ = [kv for kl, kv in kb if kl == t.discr.place.local and (isinstance(kv, bool) or (isinstance(kv, tuple) and kv[0] == "defat"))]
+                if kv_:
+                    po_ = switch_pred(fn, bb).strip()
+                    if po_.k == "var" and po_.a.get("local") is not None and not po_.a.get("is_arg") and po_.a["local"] > fn.arg_count \
+                            and not fn.locals[po_.a["local"]].get("mut") and fn.local_ty(po_.a["local"]) == "bool":
+                        static_role = False
+                        for kv in kv_:
+                            if isinstance(kv, tuple):
+                                try:
+                                    if branch_role(fn, bb, _origin_of_def(fn, (kv[1], "assign", fn.blocks[kv[1]].stmts[kv[2]]), 10, set())) is None:
+                                        static_role = True          # the test it stands for has no role: the flag keeps its own
+                                except Exception:
+                                    static_role = True
+            if static_role:
                 pk = _switch_place_key(fn, bb)
                 if pk is not None and pk[0] != "discr":
                     pk = None
@@ -1216,7 +1233,7 @@ def event_graph(fn, role_of, ret_local=0, max_states=40000, branch_role=None, st
                     nd = decided | {(pk, val)} if pk is not None else decided
                     work.append((tgt, (node, frozenset(), str(lab), retv, nd, kb)))
                 continue
-            if branch_role is not None and bb not in br_roles and t.discr.place is not None and t.discr.place.is_local():
+            if branch_role is not None and not static_role and t.discr.place is not None and t.discr.place.is_local():
                 dyn = None
                 for kl, kv in kb:
                     if kl == t.discr.place.local and isinstance(kv, tuple) and kv[0] == "defat":
